@@ -25,7 +25,7 @@ ASSUMPTIONS = [
     "expressions from a 5-element alphabet; layouts L(5,3) / L(6,3)",
 ]
 BOUND = {
-    "quick": "16 combinations x 5 expressions x 7 dataset names x 3 sheet shapes; L(5,3) x save_to subsets <=2 x 4 combinations; 7 save_to names x 5 placements",
+    "quick": "second entities rows without a list name (4 shapes) and 5 omit_instanceID / instance_name / audit settings for all 16 combinations; 16 combinations x 5 expressions x 7 dataset names x 3 sheet shapes; L(5,3) x save_to subsets <=2 x 4 combinations; 7 save_to names x 5 placements",
     "thorough": "same table; L(6,3) x save_to subsets <=2 x 6 combinations",
 }
 
@@ -56,6 +56,13 @@ def gen_table(tier):
                     if shape != "one" and (ds != "trees" or ei > 1):
                         continue
                     yield {"k": "table", "bits": list(bits), "expr": ei, "ds": ds, "shape": shape}
+        # a second row that is not a full declaration (no list name; before or after the real one): still two rows, still refused
+        for shape in ("two-second-nolist", "two-first-nolist", "two-second-only-create_if", "two-first-only-entity_id"):
+            yield {"k": "table", "bits": list(bits), "expr": 0, "ds": "trees", "shape": shape}
+        # settings that change what else the meta block holds: the entity declaration is there regardless
+        for st in ("omit", "omit+name", "name", "omit+audit", "name+audit"):
+            for ei in (0, 1):
+                yield {"k": "table", "bits": list(bits), "expr": ei, "ds": "trees", "shape": "one", "set": st}
         # unknown entities columns, including names that happen to be fields of pyxform's element classes
         for col in UNKNOWN_COLS:
             yield {"k": "table", "bits": list(bits), "expr": 0, "ds": "trees", "shape": "extra", "col": col}
@@ -109,9 +116,23 @@ def build(case):
             ent = [row, dict(row, dataset="other")]
         if case["shape"] == "extra":
             ent = [dict(row, **{case.get("col", "foo"): "bar"})]
+        extra_row = {"two-second-nolist": {"label": "'m'", "create_if": "1 = 1"}, "two-first-nolist": {"label": "'m'"},
+                     "two-second-only-create_if": {"create_if": "1 = 1"}, "two-first-only-entity_id": {"entity_id": "${q}", "update_if": "1 = 1"}}.get(case["shape"])
+        if extra_row:
+            ent = [row, extra_row] if "second" in case["shape"] else [extra_row, row]
         rows = [dict(r) for r in base]
         rows[0]["save_to"] = "prop"
-        return {"survey": rows, "entities": ent}, None
+        wb = {"survey": rows, "entities": ent}
+        st = case.get("set") or ""
+        if st:
+            wb["settings"] = [{}]
+            if "omit" in st:
+                wb["settings"][0]["omit_instanceID"] = "yes"
+            if "name" in st:
+                wb["settings"][0]["instance_name"] = "concat(${q}, '-')"
+            if "audit" in st:
+                rows.append({"type": "audit", "name": "audit"})
+        return wb, None
     if case["k"] == "names":
         rows = [dict(r) for r in base]
         place = case["place"]
@@ -266,6 +287,13 @@ def check_one(case):
     if case["k"] == "table":
         check_entity(obs, out.xform, case["bits"], EXPRS[case["expr"]], case["ds"], viol)
         saves = {"/data/q": "prop"}
+        st = case.get("set")
+        if st is not None:
+            meta = obs.paths.get("/data/meta")
+            kids = [O.local(c.tag) for c in meta] if meta is not None else None
+            want_kids = (["audit"] if "audit" in st else []) + ([] if "omit" in st else ["instanceID"]) + (["instanceName"] if "name" in st else []) + ["entity"]
+            if kids is None or sorted(kids) != sorted(want_kids):
+                viol.append((f"meta-children:{st}", f"got {kids} want {want_kids}"))
     elif case["k"] == "names":
         check_entity(obs, out.xform, [0, 0, 0, 1], "'l'", "trees", viol)
         saves = {"/data/q" if case["place"] == "top" else "/data/g/qg": case["st"]}
